@@ -39,7 +39,7 @@
 From V Require Import Base.Prelude Base.Prog Meta.Model Flate.Spec XFlate.Index XFlate.Reader.
 
 (* newFlateReader(nil): offsets 0, nothing to deliver *)
-Definition zr0 : zrd := mkZr [] 0 None 0 false.
+Definition zr0 : zrd := mkZr [] 0 None 0 false false.
 
 (* what decodeFooter reads, whether it then succeeds or not *)
 Definition footer_log (data : list byte) : iolog :=
